@@ -33,7 +33,7 @@ PLAN = {
     "C05": {"runs": [eng("fo", "c05", 300, 6000), eng("fo", "c01", 100, 2000), eng("fo", "dfs", 24000, 300000, budget_s={"quick": 150, "thorough": 600})]},
     "C06": {"runs": [eng("fo", "c06", 300, 6000), eng("fo", "table", 0, 0), eng("fo", "dfs", 8000, 100000, budget_s={"quick": 120, "thorough": 400})]},
     "C04": {"runs": [eng("fo", "c04", 250, 5000), eng("fo", "c01", 120, 2000), eng("fo", "dfs", 24000, 300000, budget_s={"quick": 150, "thorough": 600})]},
-    "C08": {"runs": [eng("linz", "c08", 1500, 40000), eng("linz", "c08cleanup", 300, 6000), eng("linz", "c18del", 800, 8000)],
+    "C08": {"runs": [eng("linz", "c08", 1500, 40000), eng("linz", "c08cleanup", 300, 6000), eng("linz", "c18del", 800, 8000), eng("linz", "c09pair", 2000, 20000)],
             "trusted_extra": ["sync.RWMutex / sync.Map provide mutual exclusion and linearizable single-key operations; Go map iteration yields every entry present during the whole iteration exactly once",
                               "implementation coverage is statistical: the Go scheduler is not steered inside the backends"]},
     "C16": {"runs": [dict(engine="race", profile="c16", n={"quick": 1, "thorough": 1}, race=True, timeout={"quick": 900, "thorough": 3000})],
@@ -48,7 +48,7 @@ PLAN = {
     "C17": {"runs": [eng("inval", "c17", 90, 900)]},
     "C07": {"runs": [seq("c07", 240, 6000), seq("c11", 120, 1500)],
             "explanation": "refinement of the slot-keyed store to a plain map with per-entry expiry, for every hash function and every op sequence"},
-    "C09": {"runs": [seq("c09", 200, 4000), eng("fo", "c04", 150, 3000), eng("inval", "c15", 100, 1000), eng("linz", "c08", 500, 6000)]},
+    "C09": {"runs": [seq("c09", 200, 4000), eng("fo", "c04", 150, 3000), eng("inval", "c15", 100, 1000), eng("linz", "c08", 500, 6000), eng("linz", "c09pair", 4000, 40000)]},
     "C10": {"runs": [seq("c10", 200, 5000), eng("fo", "c06", 120, 2000), seq("c11", 120, 1500)],
             "trusted_extra": ["float64 evaluation of the jitter product is idealised by exact rationals; the correspondence allows |T|*2^-40+1 ns slack"]},
     "C11": {"runs": [seq("c11", 200, 3000), eng("xfer", "c13", 150, 1500), eng("linz", "c08cleanup", 800, 8000), eng("conserve", "c11all", 300, 4000)]},
